@@ -376,7 +376,9 @@ def cmd_check(pid, tier, seed, opts):
                     pass
         if replayed:
             continue
-        if o["result"] == "sat":
+        if o["result"] == "sat" and o["kind"] == "reach":
+            undecided.append((c.key, "a path the verifier cannot model is reachable (%s)" % o["name"], o.get("goal")))
+        elif o["result"] == "sat":
             path = rtc.write_replay(pid, "obligation", c.key, {}, None, obligation=o["name"],
                                     solver={"result": "sat", "goal": o.get("goal"), "model": o.get("model"), "line": o.get("line")})
             violations.append((c.key, o["name"], path, " no-failing-input-found"))
